@@ -323,11 +323,26 @@ pub fn post_op<'f>(s: &mut Sess, fs: &'f Fs, hs: &mut [Option<H<'f>>], op: &Op, 
     }
     // ---- C16: aliases of new entries
     for (k, sfn) in w.new_aliases.drain(..) {
-        if s.cfg.on("C16") && s.model.nodes[k].born == s.op_id || matches!(op, Op::Rename { .. }) {
+        if (s.cfg.on("C16") || s.cfg.on("C01")) && s.model.nodes[k].born == s.op_id || matches!(op, Op::Rename { .. }) {
             if let Some(p) = alias_problem(&sfn) {
                 if s.cfg.on("C16") {
                     let d = format!("entry {} got the short name {:?}: {}", s.model.path_of(k), String::from_utf8_lossy(&sfn), p);
                     s.violate("C16", "alias-illegal", op, "", d);
+                    return;
+                }
+            }
+            // an alias without a numeric tail is only legitimate when it spells the long name itself (the name fits
+            // 8.3 as it is): otherwise a generated alias would shadow a different, perfectly ordinary name
+            // ("index.html" answering to "index.htm")
+            // (the reference tree of C01 tolerates lookups that are answered by an alias; that tolerance is only sound for
+            // aliases a user would not type by accident, so the rule is part of C01's oracle as well)
+            if (s.cfg.on("C16") || s.cfg.on("C01")) && !sfn.contains(&b'~') {
+                let long = s.model.nodes[k].name.trim_end_matches(|c| c == ' ' || c == '.').to_ascii_uppercase();
+                let shown = crate::model::alias_display(&sfn).to_ascii_uppercase();
+                if shown != long {
+                    let d = format!("entry {} got the short name {:?} without a numeric tail although that is not its own name: the alias answers to a different name", s.model.path_of(k), String::from_utf8_lossy(&sfn));
+                    let p: &'static str = if s.cfg.on("C16") { "C16" } else { "C01" };
+                    s.violate(p, "alias-shadows-other-name", op, "", d);
                     return;
                 }
             }
